@@ -188,7 +188,7 @@ def run_grain(wd, out, binary, quick):
         results = list(ex.map(one, jobs))
     drawn = rejected = entries = 0
     for (kind, path, idx), o, wall in results:
-        viol = re.search(r"Error: Invariant (\w+) is violated", o)
+        viol = re.search(r"Error: Invariant (\w+) is violated", o) or re.search(r"Error: The invariant of (\w+) is equal to FALSE", o)
         done = re.search(r'<<"GRAIN-DONE", (\d+), (\d+), (\d+), (\d+), (\d+), (\d+), (\d+)>>', o)
         fin = "Model checking completed. No error has been found" in o
         if kind in ("neg", "neg2"):
@@ -197,7 +197,8 @@ def run_grain(wd, out, binary, quick):
             continue
         if viol:
             bad = re.findall(r"bad = (\{.*\})", o)
-            what = f"parameter set {idx} (t = {idx + 1}): invariant {viol.group(1)} of Grain.tla violated, {bad[-1] if bad else ''}"
+            what = (f"parameter set {idx} (t = {idx + 1}): invariant {viol.group(1)} of Grain.tla violated, {bad[-1] if bad else ''}"
+                    + (f" (round numbers T={libv.get('T')} RF={libv.get('RF')} RP={libv.get('RP')})" if viol.group(1) == "ParamsOK" and kind == "lib" else ""))
             if kind == "table":
                 raise ToolError("the circomlib table of the Poseidon judge is not the specified Grain stream: " + what)
             out.violation("the Poseidon parameters the library generates are not the Grain-LFSR-derived ones: " + what,
